@@ -552,7 +552,10 @@ def _process_internal_events_without_default_matchers(
         if (
             source_flow_state is not None
             and _is_done_flow(source_flow_state)
-            and source_flow_state.activated == 0
+            and (
+                source_flow_state.activated == 0
+                or flow_id != source_flow_state.flow_id
+            )
         ):
             log.info("Start of flow '%s' ignored, the starting flow has ended", flow_id)
         elif flow_id in state.flow_configs and flow_id != "main":
